@@ -323,11 +323,15 @@ fn one_history(cfg: &Cfg, r: &mut Report, s: &Arc<crate::sched::Sched>, rt: &tok
 
     // ---- workload (sequential) --------------------------------------------------------------
     let app = App::open(&store, None).expect("open");
+    {
+        let mut g = shared.lock().unwrap();
+        g.active = true; // the creation of the default thread is imaged too
+        g.op_kind = "EnsureDefault".into();
+    }
     let c0 = app.store().ensure_default().expect("default");
     {
         let mut g = shared.lock().unwrap();
         g.conts.push(c0.clone());
-        g.active = true;
     }
     let mut known = Known::default();
     let ops = plan_ops(rng, cfg.tier.pick(8, 30));
@@ -495,6 +499,25 @@ fn judge_image(r: &mut Report, img: &Image, acked: &[String], case: u64) {
 
     // (4) further appends continue the numbering
     let store = app.store();
+    // every thread the restarted authority lists (index.json) and the default thread it hands out must be usable:
+    // an index entry written before its creation frame would name a thread that has no stream
+    let mut to_probe: Vec<String> = store.list().into_iter().map(|m| m.continuity_id).collect();
+    if let Ok(d) = store.ensure_default() {
+        to_probe.push(d);
+    }
+    to_probe.sort();
+    to_probe.dedup();
+    for id in to_probe {
+        if let Err(e) = store.append_message(&id, "rv".into(), "rv".into(), "probe-after-crash".into()) {
+            r.violation(
+                &format!("C05/thread_listed_but_unusable/{at}"),
+                &format!("after a crash at {} the restarted authority lists / hands out thread {id} but appending to it fails: {e}", img.point),
+                wit(json!({"thread": id, "error": e})),
+            );
+            return;
+        }
+        r.count("listed_threads_probed_after_restart", 1);
+    }
     for c in &conts {
         match store.append_message(c, "rv".into(), "rv".into(), "after-crash".into()) {
             Ok(_) => {}
